@@ -647,3 +647,135 @@ Proof.
   unfold content. rewrite <- (Hc (leaves t')), <- (Hc (leaves t)), <- (Hc cs), <- concat_app.
   f_equal. exact Hl.
 Qed.
+
+(** ---------- totality: the fuel passed by [append] is enough ---------- *)
+Lemma height_in {D} (c : tree D) rs bs ks : In c ks -> (S (height c) <= height (Node rs bs ks))%nat.
+Proof.
+  intros Hin. cbn [height]. apply le_n_S. induction ks as [|x ks IHk]; [destruct Hin|].
+  cbn [fold_right]. destruct Hin as [-> | Hin]; [lia | specialize (IHk Hin); lia].
+Qed.
+
+Section Total.
+  Context {D : Type}.
+  Variable dlen : D -> Z.
+  Variable dnil : D.
+  Variable w : nat.
+  Hypothesis Hw1 : (1 <= w)%nat.
+  Variable raw : bool.
+  Notation k := (tri_kind raw).
+  Notation nst := (@nst D).
+  Notation W := (Z.of_nat w).
+  Notation dflt := (Leaf KRaw 0 dnil).
+
+  (** the chain of last links that appendRec walks down: every one of them can be reopened *)
+  Inductive chain : nat -> list (tree D) -> Prop :=
+  | chain_short n ks : Z.of_nat (length ks) <= W -> chain n ks
+  | chain_long n ks ls : W < Z.of_nat (length ks) -> open dlen (last ks dflt) = Some ls ->
+                         chain n (st_kids ls) -> chain (S n) ks.
+
+  Lemma chain_mono n ks : chain n ks -> forall n', (n <= n')%nat -> chain n' ks.
+  Proof.
+    induction 1 as [n ks Hs | n ks ls Hl Ho Hc IH]; intros n' Hn; [apply chain_short; exact Hs|].
+    destruct n' as [|n']; [lia|]. eapply chain_long; [exact Hl | exact Ho | apply IH; lia].
+  Qed.
+
+  Lemma fill_layer_count (s : nst) cs s' r :
+    fill_layer dlen w k s cs = (s', r) -> num_children s <= W -> num_children s' <= W.
+  Proof.
+    unfold fill_layer, num_children.
+    destruct (fill_slots (leafb dlen k) (w - length (st_kids s)) cs) as [ls r0] eqn:E.
+    intros H Hn; inversion H; subst.
+    destruct (fill_slots_spec dlen _ _ _ (leafb_tri_spec dlen w raw) _ _ _ _ E) as (_ & _ & _ & Ilen & _).
+    rewrite add_kids_kids, app_length. lia.
+  Qed.
+
+  Lemma append_rec_total fl : forall fuel n (s : nst) m cs,
+    chain n (st_kids s) -> (S n <= fuel)%nat ->
+    exists res, append_rec dlen dnil w k fl fuel s m cs = Some res.
+  Proof.
+    induction fuel as [|fuel IH]; intros n s m cs Hc Hf; [lia|]. cbn [append_rec].
+    destruct ((m =? 0) || is_nil cs); [eexists; reflexivity|].
+    destruct (depth_info w s) as [d0 rep] eqn:Einfo.
+    destruct (@depth_info_spec D w Hw1 _ _ _ Einfo) as [(Hlt & -> & ->) | (Hge & Hn & Hj & Hd1)].
+    - cbn [Z.eqb].
+      destruct (fill_layer dlen w k s cs) as [s1 cs1] eqn:Ef.
+      pose proof (fill_layer_count _ _ _ _ Ef ltac:(lia)) as Hn1.
+      destruct (1 =? m); [eexists; reflexivity|].
+      unfold fill_last. replace (num_children s1 <=? W) with true by lia.
+      destruct (resume w fl s1 1 cs1). eexists; reflexivity.
+    - replace (d0 =? 0) with false by lia.
+      destruct (d0 =? m); [eexists; reflexivity|].
+      unfold fill_last. destruct (num_children s <=? W) eqn:En.
+      { destruct (resume w fl s d0 cs). eexists; reflexivity. }
+      inversion Hc as [n0 ks0 Hs | n0 ks0 ls Hl Ho Hcl]; subst; [unfold num_children in En; lia|].
+      rewrite Ho.
+      destruct (IH n0 ls (d0 - 1) cs Hcl ltac:(lia)) as [[ls' cs1] ->].
+      destruct (rep =? 0).
+      + match goal with |- context [resume w fl ?a ?b ?c] => destruct (resume w fl a b c) end.
+        eexists; reflexivity.
+      + destruct (fill_slots (tri_sub_z dlen w k d0) (Z.to_nat (Z.of_nat depth_repeat - rep)) cs1).
+        match goal with |- context [resume w fl ?a ?b ?c] => destruct (resume w fl a b c) end.
+        eexists; reflexivity.
+  Qed.
+
+  (** a tree that passes the verifier at a branch position can be reopened, and so can
+      the whole chain of its last links *)
+  Lemma tok_chain : forall (t : tree D) L, L <> 0 -> tri_ok dlen w raw t L = true ->
+    exists s, open dlen t = Some s /\ chain (height t) (st_kids s).
+  Proof.
+    induction t as [kd rs d | rs bs ks IH] using tree_ind'; intros L HL H.
+    - cbn [tri_ok] in H. replace (L =? 0) with false in H by lia.
+      destruct kd; try discriminate. cbn [open]. rewrite H.
+      eexists; split; [reflexivity|]. apply chain_short. cbn. lia.
+    - exists (rs, bs, ks). split; [reflexivity|]. cbn [st_kids snd].
+      destruct (Z_le_gt_dec (Z.of_nat (length ks)) W) as [Hs | Hl]; [apply chain_short; exact Hs|].
+      rewrite tri_ok_node in H. apply andb_true_iff in H. destruct H as [_ Hgo].
+      assert (Hks : ks <> []) by (destruct ks; [cbn in Hl; lia | discriminate]).
+      pose proof (removelast_last ks dflt Hks) as Hsplit.
+      set (lastk := last ks dflt) in *. set (pre := removelast ks) in *.
+      assert (Hlen : Z.of_nat (length ks) = zlen pre + 1).
+      { rewrite Hsplit, app_length. unfold zlen. cbn [length]. lia. }
+      rewrite Hsplit, tri_go_app in Hgo by exact Hw1.
+      apply andb_true_iff in Hgo. destruct Hgo as [_ Hlast].
+      rewrite Z.add_0_l in Hlast. cbn [tri_go] in Hlast. rewrite andb_true_r in Hlast.
+      change (Z.of_nat depth_repeat) with 4 in Hlast.
+      replace (zlen pre <? W) with false in Hlast by lia. cbv zeta in Hlast.
+      apply andb_true_iff in Hlast. destruct Hlast as [_ Hlast].
+      assert (Hin : In lastk ks) by (rewrite Hsplit; apply in_or_app; right; left; reflexivity).
+      rewrite Forall_forall in IH.
+      assert (Hrd : (zlen pre - W) / 4 + 1 <> 0).
+      { assert (0 <= (zlen pre - W) / 4) by (apply Z.div_pos; lia). lia. }
+      destruct (IH lastk Hin _ Hrd Hlast) as (ls & Ho & Hc).
+      pose proof (height_in lastk rs bs ks Hin) as Hh.
+      apply (chain_mono (S (height lastk))); [|exact Hh].
+      eapply chain_long; [lia | exact Ho | exact Hc].
+  Qed.
+
+  Theorem append_total fl (t : tree D) cs :
+    tri_shape dlen w raw t = true -> exists t', append dlen dnil w k fl t cs = Some t'.
+  Proof.
+    unfold tri_shape. intros Ht.
+    destruct (tok_chain t (-1) ltac:(lia) Ht) as (s & Ho & Hc).
+    unfold append. rewrite Ho.
+    destruct (depth_info w s) as [d0 rep] eqn:Einfo.
+    destruct (@depth_info_spec D w Hw1 _ _ _ Einfo) as [(Hlt & -> & ->) | (Hge & Hn & Hj & Hd1)].
+    - cbn [Z.eqb andb].
+      destruct (fill_layer dlen w k s cs) as [s1 cs1] eqn:Ef.
+      pose proof (fill_layer_count _ _ _ _ Ef ltac:(lia)) as Hn1.
+      destruct (is_nil cs1); [eexists; reflexivity|].
+      unfold fill_last. replace (num_children s1 <=? W) with true by lia.
+      destruct (resume w fl s1 1 cs1). eexists; reflexivity.
+    - replace (d0 =? 0) with false by lia. cbv beta iota zeta. cbn [andb].
+      unfold fill_last. destruct (num_children s <=? W) eqn:En.
+      { destruct (resume w fl s d0 cs). eexists; reflexivity. }
+      inversion Hc as [n0 ks0 Hs | n0 ks0 ls Hl Hol Hcl]; subst; [unfold num_children in En; lia|].
+      rewrite Hol.
+      destruct (append_rec_total fl (S n0) n0 ls (d0 - 1 - 1) cs Hcl (le_n _)) as [[ls' cs1] ->].
+      destruct (rep =? 0).
+      + match goal with |- context [resume w fl ?a ?b ?c] => destruct (resume w fl a b c) end.
+        eexists; reflexivity.
+      + destruct (fill_slots (tri_sub_z dlen w k (d0 - 1)) (Z.to_nat (Z.of_nat depth_repeat - rep)) cs1).
+        match goal with |- context [resume w fl ?a ?b ?c] => destruct (resume w fl a b c) end.
+        eexists; reflexivity.
+  Qed.
+End Total.
